@@ -1212,7 +1212,7 @@ impl TensorStore {
         };
 
         let path = path.as_ref();
-        let temp_path = path.with_extension("tmp");
+        let temp_path = crate::snapshot::temp_path_for(path);
 
         let keys = self.router.scan("");
         let mut entries = Vec::with_capacity(keys.len());
@@ -1236,10 +1236,13 @@ impl TensorStore {
                     TensorValue::Vector(v) => compress_vector(v, &key, field_name, &config)
                         .map_err(|e| SnapshotError::SerializationError(e.to_string()))?,
                     TensorValue::Sparse(sv) => {
-                        // Convert sparse to dense for compression, then compress
-                        // Future: add native sparse compression format
-                        compress_vector(&sv.to_dense(), &key, field_name, &config)
-                            .map_err(|e| SnapshotError::SerializationError(e.to_string()))?
+                        // Keep the value sparse: positions and values are stored exactly and
+                        // the loader rebuilds a `SparseVector` from them.
+                        tensor_compress::format::compress_sparse(
+                            sv.dimension(),
+                            sv.positions(),
+                            sv.values(),
+                        )
                     },
                     TensorValue::Pointer(p) => CompressedValue::Pointer(p.clone()),
                     TensorValue::Pointers(ps) => CompressedValue::Pointers(ps.clone()),
@@ -1256,6 +1259,7 @@ impl TensorStore {
         let bytes = bitcode::serialize(&snapshot)?;
         let mut file = File::create(&temp_path)?;
         file.write_all(&bytes)?;
+        file.sync_all()?;
 
         std::fs::rename(&temp_path, path)?;
 
@@ -3184,6 +3188,50 @@ mod tests {
         );
         assert_eq!(data.get("p"), Some(&TensorValue::Pointer("x".into())));
         assert_eq!(data.get("v"), Some(&TensorValue::Vector(vec![1.0, 2.5])));
+    }
+
+    #[test]
+    fn snapshot_compressed_keeps_sparse_and_odd_id_fields() {
+        let store = TensorStore::new();
+        let mut data = TensorData::new();
+        data.set(
+            "sv",
+            TensorValue::Sparse(SparseVector::from_parts(8, vec![1, 6], vec![0.5, -2.0])),
+        );
+        // A field called `ids` holding values that are not ids must come back unchanged.
+        data.set("ids", TensorValue::Vector(vec![1.5, -2.0, f32::INFINITY]));
+        // Integral, sorted, but beyond u64: not an id list either.
+        data.set("weights", TensorValue::Vector(vec![1.0, 1e30]));
+        data.set("real_ids", TensorValue::Vector(vec![1.0, 2.0, 40.0]));
+        store.put("user:1", data.clone()).unwrap();
+
+        let temp = std::env::temp_dir().join("test_compressed_sparse_ids.bin");
+        let config = tensor_compress::CompressionConfig {
+            tensor_mode: None,
+            delta_encoding: true,
+            rle_encoding: true,
+        };
+        store.save_snapshot_compressed(&temp, config).unwrap();
+        let loaded = TensorStore::load_snapshot_compressed(&temp).unwrap();
+        std::fs::remove_file(&temp).ok();
+
+        assert_eq!(loaded.get("user:1").unwrap(), data);
+    }
+
+    #[test]
+    fn snapshot_to_tmp_extension_path_keeps_old_file_until_rename() {
+        let dir = std::env::temp_dir().join("test_snapshot_tmp_ext");
+        std::fs::create_dir_all(&dir).unwrap();
+        let path = dir.join("snap.tmp");
+        assert_ne!(crate::snapshot::temp_path_for(&path), path);
+
+        let store = TensorStore::new();
+        store.put("k", TensorData::new()).unwrap();
+        store.save_snapshot(&path).unwrap();
+        let loaded = TensorStore::load_snapshot(&path).unwrap();
+        assert!(loaded.exists("k"));
+        assert!(!crate::snapshot::temp_path_for(&path).exists());
+        std::fs::remove_dir_all(&dir).ok();
     }
 
     #[test]
